@@ -58,3 +58,99 @@ Theorem C08_timer_owned : forall nw lim autostart choices clients nslots sched,
 Proof. exact armed_timer_owned. Qed.
 Print Assumptions C08_stop_leaves_no_goroutine.
 Print Assumptions C08_wait_group_counts_live_goroutines.
+
+(** ---- trace-level statements (what holds once Stop has RETURNED, where an accepted task is,
+    backpressure and cancellation).
+    Vocabulary.
+    - [accepted x tr]: the trace contains the return of the submission of task x
+      with "accepted": Do / Execute returned, TryDo / TryExecute returned true.
+    - [returned x tr]: the submission of x has returned (any value).
+    - [results c tr x]: the results delivered to x's result channel so far:
+      those still in the channel, followed by those already received (the trace
+      records them: Await / PollRes returned a value).
+    - [res_ok x n r]: r is x's own value and n = 1, or r is the cancellation
+      result and n = 0 (n = number of executions of x).
+    - [stop_done c]: the state word is 2 and no thread is between Stop's CAS
+      and the end of its drain loop, i.e. the Stop call that won the CAS has
+      returned.  A second Stop call racing with the first returns at once
+      ([PoolSafeExamples.second_stop_returns_early]), so "some Stop call has
+      returned" alone is NOT enough; it is enough when no thread is inside a
+      Stop call any more, or when the programs contain at most one Stop.
+    - [Hwk x], [Hdr x], [H1 x]: number of worker goroutines holding x (taken
+      from the queue, not yet answered) / of drain loops holding x / of
+      workers executing x. *)
+From Garr Require Import Pool.PoolStopDone Pool.PoolAcct Pool.PoolHist Pool.PoolAfterStop Pool.PoolStopCount
+  Pool.PoolLateSubmit Pool.PoolSelect Pool.PoolTimers Pool.PoolLive Pool.PoolProgress Pool.PoolFacts.
+
+(** (A) C08 / C12 - once the effective Stop has returned no work is left *)
+Theorem C08_Stop_returned_no_work_left : forall nw lim autostart choices clients nslots,
+  clients_ok clients -> forall sched,
+  let c := final (pool nw lim) (pool_cfg nw autostart choices clients nslots) sched in
+  let tr := trace (pool nw lim) (pool_cfg nw autostart choices clients nslots) sched in
+  stop_done c ->
+  p_queue (c_sh c) = [] /\ p_qclosed (c_sh c) = true /\ p_closedflag (c_sh c) = true /\
+  p_poolctx (c_sh c) = true /\ p_wg (c_sh c) = 0 /\
+  (forall k, k < length (p_spawned (c_sh c)) ->
+     exists th, nth_error (c_thr c) (length clients + k) = Some th /\ t_prog th = [] /\ t_cur th = None) /\
+  (forall x, In x (p_timers (c_sh c)) -> tm_armed x = false /\ tm_fired x = false) /\
+  (forall i l, at_pc c i l -> worker_pc l = false /\ is_stop l = false) /\
+  (forall x, H1 x (aths c) = 0 /\ Hwk x (aths c) = 0 /\ Hdr x (aths c) = 0) /\
+  (forall x, accepted x tr ->
+     exists t r, get_task (c_sh c) x = Some t /\ results c tr x = [r] /\ res_ok x (tk_execs t) r /\ tk_execs t <= 1).
+Proof. exact stop_returned_no_work_left. Qed.
+
+(** links between the trace and [stop_done] *)
+Theorem C08_Stop_done_when_no_Stop_in_progress : forall nw lim autostart choices clients nslots,
+  clients_ok clients -> forall sched,
+  let c := final (pool nw lim) (pool_cfg nw autostart choices clients nslots) sched in
+  let tr := trace (pool nw lim) (pool_cfg nw autostart choices clients nslots) sched in
+  stop_returned tr ->
+  (forall i th o l, nth_error (c_thr c) i = Some th -> t_cur th = Some (o, l) -> o <> Stop) ->
+  stop_done c.
+Proof. exact stop_done_from_trace. Qed.
+
+
+Theorem C08_Stop_done_single_Stop : forall nw lim autostart choices clients nslots,
+  clients_ok clients -> forall sched,
+  let c := final (pool nw lim) (pool_cfg nw autostart choices clients nslots) sched in
+  let tr := trace (pool nw lim) (pool_cfg nw autostart choices clients nslots) sched in
+  cstop (concat clients) <= 1 -> stop_returned tr -> stop_done c.
+Proof. exact stop_done_single_stop. Qed.
+
+
+Theorem C08_Stop_done_is_stable : forall nw lim autostart choices clients nslots,
+  clients_ok clients -> forall sched1 sched2,
+  stop_done (final (pool nw lim) (pool_cfg nw autostart choices clients nslots) sched1) ->
+  stop_done (final (pool nw lim) (final (pool nw lim) (pool_cfg nw autostart choices clients nslots) sched1) sched2).
+Proof. exact stop_done_stable. Qed.
+
+(** (A, end) a submission that starts after the effective Stop has returned is refused: never
+    queued, never held by a worker, never executed, never answered "true"; once it has returned
+    the task has exactly one result, the cancellation result *)
+Theorem C08_Submission_after_Stop_refused : forall nw lim autostart choices clients nslots,
+  clients_ok clients -> forall sched1 sched2 j th o x,
+  let c1 := final (pool nw lim) (pool_cfg nw autostart choices clients nslots) sched1 in
+  let c2 := final (pool nw lim) c1 sched2 in
+  let tr := trace (pool nw lim) (pool_cfg nw autostart choices clients nslots) sched1 ++ trace (pool nw lim) c1 sched2 in
+  stop_done c1 -> nth_error (c_thr c1) j = Some th -> In o (t_prog th) -> sub_id o = Some x ->
+  stop_done c2 /\
+  p_queue (c_sh c2) = [] /\ Hwk x (aths c2) = 0 /\ Hdr x (aths c2) = 0 /\ H1 x (aths c2) = 0 /\
+  (forall t, get_task (c_sh c2) x = Some t -> tk_execs t = 0) /\
+  (forall i o' r, In (ERet i o' r) tr -> sub_id o' = Some x -> r = PU \/ r = PB false) /\
+  (returned x tr ->
+     exists t, get_task (c_sh c2) x = Some t /\ results c2 tr x = [TCanceled] /\ tk_execs t = 0).
+Proof. exact submission_after_stop_refused. Qed.
+
+(** an expanded worker never waits in the drain of its timer channel (timer.Stop() never fails) *)
+Theorem C08_Timer_drain_never_reached : forall nw lim autostart choices clients nslots sched,
+  clients_ok clients ->
+  let c := final (pool nw lim) (pool_cfg nw autostart choices clients nslots) sched in
+  forall i tm got, ~ at_pc c i (XDrainTimer tm got).
+Proof. exact timer_drain_never_reached. Qed.
+
+Print Assumptions C08_Stop_returned_no_work_left.
+Print Assumptions C08_Stop_done_when_no_Stop_in_progress.
+Print Assumptions C08_Stop_done_single_Stop.
+Print Assumptions C08_Stop_done_is_stable.
+Print Assumptions C08_Submission_after_Stop_refused.
+Print Assumptions C08_Timer_drain_never_reached.
